@@ -1,5 +1,6 @@
 """C08 — all lookup entry points agree with lookup() and subscriptions() (DESIGN.md section 5, C08)."""
 from .. import common as C
+from ..translate import lookup_c, lookup_py
 from . import regcommon as RC
 
 ID = "C08"
@@ -17,6 +18,7 @@ THEOREMS = [
     "C08_adapters_wf_storage", "C08_adapters_wf_reachable", "C08_sys_lookup1_eq_lookup",
     "C08_c_lookup_eq_py", "C08_c_lookup1_eq_py", "C08_c_adapter_hook_eq_py", "C08_c_queryAdapter_eq_py",
     "C08_c_lookupAll_subscriptions_eq_py", "C08_c_default_by_identity",
+    "C08_generated_py_eq_model", "C08_generated_c_eq_model", "C08_generated_c_lookup1_eq_generated_py_lookup",
 ]
 RULE = ("worlds of 3-5 interfaces, 2-3 classes, 3 instances (some directly providing) plus 1-2 super proxies; "
         "1-3 registries of one flavour; rounds of 1-8 mutations (register/unregister/subscribe/unsubscribe, "
@@ -26,10 +28,15 @@ RULE = ("worlds of 3-5 interfaces, 2-3 classes, 3 instances (some directly provi
         "subscribers, handlers, truthy and falsy non-string names (42, b'', 0, (), None, ...) on every path) in random order from the cold cache and again in another "
         "random order from the warm cache; a case is non-trivial when some lookup in it found a factory; distinct = "
         "distinct (flavour, arities, first entry point of each group) signature")
-TRUSTED_BASE = ["shared registry model Model/Adapter.v + Lookup.v + RegSys.v as transcription of adapter.py (validated by "
-                "this correspondence and by the REG fidelity test)",
-                "Model/CLookup.v as transcription of the C functions (hand-written; its equality with the Python-derived "
-                "model is proved, its fidelity is observed through the C-mode correspondence)"]
+TRUSTED_BASE = ["the cache layer Model/Lookup.v (shared) and Model/CLookup.v are proved equal, on every run, to kernels regenerated "
+                "from adapter.py (LookupBase, AdapterLookupBase) and from the C functions _getcache/_lookup/_lookup1/"
+                "_adapter_hook/_lookupAll/_subscriptions; trusted there: the translators harness/translate/lookup_py.py, "
+                "lookup_c.py (+ the tokenizer/parser of cskeleton.py) and their stated abstraction - nested cache "
+                "dictionaries = flat finite maps (Model/LookupPrims.v), _uncached_* = parameter + _subscribe, objects and "
+                "factories as oracles, a non-string name read as falsy, no reference counting, no failure paths of "
+                "allocation / foreign exceptions, single-threaded changed()",
+                "storage, uncached walkers and registry systems Model/Adapter.v + RegSys.v: hand transcription of adapter.py, "
+                "validated by this correspondence and by the REG fidelity test"]
 ASSUMPTIONS = ["the uncached computations are deterministic functions of the registry state (no mutation during a lookup; "
                "re-entrancy is C11's subject)",
                "cache invalidation on mutation is C05's subject: C08's cache theorems are about all cache states reachable "
@@ -39,6 +46,18 @@ NAMES = [0, 0, 0, 1, 2]
 # stand-ins for non-string names (harness/drivers/c08_driver.py NONSTRINGS); the model has one NotAString
 TRUTHY_NONSTR = ["X", "X4"]          # 42, b"n1"
 FALSY_NONSTR = ["X0", "X1", "X2", "X3", "X5"]   # b"", 0, (), None, 0.0
+
+
+def regenerate(run):
+    """Re-translate the cache layer from the current source text (fail closed): adapter.py -> Gen/LookupPy.v,
+    _zope_interface_coptimizations.c -> Gen/LookupC.v.  A refusal leaves the pinned kernel in place (so that the tie
+    and the Spec oracle still run) and is reported as a broken proof obligation."""
+    errs = lookup_py.regenerate() + lookup_c.regenerate()
+    # the tie must not depend on the generated-kernel proofs: build it first, on its own
+    ok, out = C.coq_make(["Tie/C08.vo"])
+    if not ok:
+        errs.append("Tie/C08.vo does not build:\n" + out[-1500:])
+    return errs
 
 
 def _add_supers(rng, world, classes):
@@ -270,21 +289,24 @@ def replay_text(case, obs, mode):
     return "\n".join(lines)
 
 
-TECHNIQUE = ("Coq proofs over the shared Gallina transcription of LookupBase / AdapterLookupBase (Python) and of the C "
-             "functions _lookup/_lookup1/_adapter_hook/_lookupAll/_subscriptions; vm_compute correspondence of whole "
+TECHNIQUE = ("Coq proofs over the shared Gallina model of LookupBase / AdapterLookupBase (Python) and of the C functions "
+             "_lookup/_lookup1/_adapter_hook/_lookupAll/_subscriptions, both proved equal to kernels regenerated from the "
+             "source text by fail-closed translators on every run; vm_compute correspondence of whole "
              "registry histories with both implementations; the implementation's answers are judged against each other "
              "in Coq per the property statement")
-LEVEL_TEXT = ("Machine-checked theorems (Properties/C08.v, 25 theorems, closed under the global context) state, for all "
+LEVEL_TEXT = ("Machine-checked theorems (Properties/C08.v, 28 theorems, closed under the global context) state, for all "
               "uncached computations, factory behaviours, objects and ALL cache states (relations between entry points) "
               "resp. all cache states reachable by any sequence of entry-point calls (cache independence), that lookup1, "
               "queryAdapter, adapter_hook, queryMultiAdapter, names and subscribers are the stated functions of lookup / "
               "lookupAll / subscriptions, that non-string names are rejected on every path, that the lookupAll walker maps "
               "every name to what the lookup walker finds (first match forward = last write backward; side condition "
               "proved for every reachable registry system), and that the C functions equal the Python ones for every "
-              "shape of the optional arguments.  The model is compared with both implementations on generated histories "
+              "shape of the optional arguments.  The Python cache layer (13 methods) and the 6 C functions are re-translated from "
+              "the current source on every run and proved equal to the model functions the theorems are about, so a change "
+              "of the text either keeps the theorems or breaks a proof / aborts a translator.  The model is compared with both implementations on generated histories "
               "that call every entry point cold and warm, and the raw answers are judged against each other in Coq.")
-LEVEL_NOTE = ("Trusted: Coq kernel/vm_compute; the hand transcription of adapter.py and of the C lookup functions "
-              "(validated by the correspondence in both modes; reference counting is not modelled); nested dictionaries "
-              "are abstracted to flat finite maps.  Cache invalidation after mutations is C05's subject; here the caches "
+LEVEL_NOTE = ("Trusted: Coq kernel/vm_compute; the two translators and their abstraction (nested dictionaries as flat "
+              "finite maps; reference counting, allocation failures and concurrency not translated); the hand transcription "
+              "of the storage / uncached walkers / registry systems (validated by the correspondence in both modes).  Cache invalidation after mutations is C05's subject; here the caches "
               "are arbitrary valid ones / arbitrary ones.  'Default by identity' is modelled by a token and checked on the "
               "code with a fresh sentinel object.")
